@@ -50,6 +50,7 @@ class FnSpec:
         self.loop_body_end = {}
         self.after_loop = {}
         self.closure_ensures = {}  # n -> explicit ensures text (default: ret == (body))
+        self.after_semi = {}       # n -> text inserted after the n-th top-level `;` of the body
         self.closures = {}       # n -> header text
         self.rules = set()
         self.novac = False       # skip assert(false) vacuity probe (external fns)
@@ -129,7 +130,7 @@ def parse_spec(path):
                 section = ('clauses', cur_loop['invariant'])
             elif d == '@decreases':
                 section = ('clauses', cur_loop['decreases'])
-            elif d in ('@before_loop', '@loop_body_start', '@loop_body_end', '@after_loop'):
+            elif d in ('@before_loop', '@loop_body_start', '@loop_body_end', '@after_loop', '@after_semi'):
                 n = int(parts[1])
 
                 def tgt2(t, fn=cur_fn, n=n, attr=d[1:]):
@@ -240,7 +241,7 @@ def generate(unit, repo, vacuity_fn=None):
     """Build the Verus file text for `unit` from the working tree under `repo`.
     vacuity_fn: qualified fn name that gets `assert(false);` at body start (vacuity probe)."""
     g = Generated()
-    stats = {k: 0 for k in ('D1', 'D2', 'A1', 'A2', 'A3', 'A4', 'R1', 'R2', 'R3', 'R4', 'R5', 'R6', 'R7', 'R8', 'X1')}
+    stats = {k: 0 for k in ('D1', 'D2', 'A1', 'A2', 'A3', 'A4', 'R1', 'R2', 'R3', 'R4', 'R5', 'R6', 'R7', 'R8', 'R9', 'R10', 'X1')}
     sources = {}
 
     def src_of(rel):
@@ -320,6 +321,20 @@ def generate(unit, repo, vacuity_fn=None):
                     edits.append(Edit(toks[L.body_close].start, toks[L.body_close].start, '\n' + txt + '        ', 'A4'))
                 else:
                     edits.append(Edit(toks[L.body_close].end, toks[L.body_close].end, '\n' + txt, 'A4'))
+                stats['A4'] += 1
+        if fs.after_semi:
+            semis = []
+            k = fn.body_open + 1
+            while k < fn.body_close:
+                if toks[k].text in ('(', '[', '{'):
+                    k = match_close(toks, k)
+                elif toks[k].text == ';':
+                    semis.append(k)
+                k += 1
+            for n, txt in fs.after_semi.items():
+                if n >= len(semis):
+                    raise RsxError('anchor lost: %s has no top-level statement #%d' % (qual, n))
+                edits.append(Edit(toks[semis[n]].end, toks[semis[n]].end, '\n' + txt, 'A4'))
                 stats['A4'] += 1
         for n, hdr in fs.closures.items():
             if n >= len(fn.closures):
